@@ -36,6 +36,19 @@ pub fn send_body_flow_despite(method: &str) -> Flow<(), SendBody> {
     }
 }
 
+/// POST carrying both `transfer-encoding: chunked` and a `content-length` header: chunked wins.
+pub fn send_body_flow_te_and_len(n: u64) -> Flow<(), SendBody> {
+    let cfg = ReqCfg::new("POST", "1.1", "http://a.test/p").orig("transfer-encoding", "chunked").orig("content-length", &n.to_string());
+    let f = cfg.build_prepare().expect("prepare");
+    let mut f = f.proceed();
+    let mut buf = vec![0u8; 1024];
+    f.write(&mut buf).expect("head");
+    match AnyFlow::SendRequest(f).proceed() {
+        Ok(Some(AnyFlow::SendBody(f))) => f,
+        _ => panic!("harness: expected SendBody"),
+    }
+}
+
 /// Sized body on a body-less method converted with send_body_despite_method().
 pub fn send_body_flow_despite_len(method: &str, n: u64) -> Flow<(), SendBody> {
     let cfg = ReqCfg::new(method, "1.1", "http://a.test/p").orig("content-length", &n.to_string()).despite(true);
